@@ -240,6 +240,32 @@ def run_check(prop_id, tier="quick", seed=0):
                 meta.append((("<scan>", fn_key), ob))
                 results.append(dict(verdict="unsat" if ok else "sat", stage=0, backend="store-scan", time=0.0, attempts=[("syntactic store scan", "declared" if ok else "NOT declared", 0.0)],
                                     stats={}, model={"function": fn_key, "store_class": cls}))
+    # ---- calculation scheme: declared precedence between the process calls of a function (syntactic, from the current source)
+    from vc.spec import REGISTRY as _REG
+    for _k, _c in _REG.by_key.items():
+        prec = _c.options.get("call_precedence")
+        if not prec or (_c.name not in spec.get("functions", []) and _c.name not in spec.get("call_order_of", [])):
+            continue
+        import ast as _ast
+        from vc.interp import find_function as _ff
+        try:
+            _fn = _ff(_c.file, _c.options.get("function", _c.name))
+        except Exception as _e:
+            continue
+        first = {}
+        for _n in _ast.walk(_fn):
+            if isinstance(_n, _ast.Call) and isinstance(_n.func, _ast.Name):
+                first.setdefault(_n.func.id, (_n.lineno, _n.col_offset))
+                if (_n.lineno, _n.col_offset) < first[_n.func.id]:
+                    first[_n.func.id] = (_n.lineno, _n.col_offset)
+        for a_, b_ in prec:
+            ok = a_ in first and b_ in first and first[a_] < first[b_]
+            why = ("%s is called at line %s, %s at line %s" % (a_, first.get(a_, ("-",))[0], b_, first.get(b_, ("-",))[0]))
+            ob = dict(name="%s.call_order.%s_before_%s" % (_c.name, a_, b_), kind="call_order", func=_c.name, tags=[prop_id], lineno=None,
+                      note="calculation scheme: %s must run before %s (%s)" % (a_, b_, why))
+            meta.append((("<call_order>", _c.name), ob))
+            results.append(dict(verdict="unsat" if ok else "sat", stage=0, backend="call-order", time=0.0, attempts=[("syntactic call order", why, 0.0)], stats={},
+                                model={"function": _c.name, "first_call_sites": {k: v[0] for k, v in first.items() if k in (a_, b_)}}))
     # ---- lemma library (wsum lemmas used as rewrites / hypotheses), re-proved by induction on this run
     if spec.get("lemmas"):
         from vc import lemmas
@@ -435,6 +461,8 @@ def run_check(prop_id, tier="quick", seed=0):
           % (prop_id, tier, n_ob, n_dis, len(refuted), len(known_hits), len(unknown), len(gens),
              (bounded_res or {}).get("cases", "-"), len((bounded_res or {}).get("failures", [])) if bounded_res else 0, len(bounded_known), time.time() - t_start))
     if violations or bounded_viol:
+        for k, t in tool_limits:
+            print("NOTE tool limit in %s (its obligations were not all generated; the violation above does not depend on them): %s" % (k[1], t))
         return 1
     if bounded_err:
         print("CHECKER-ERROR bounded stand-in: %s" % bounded_err)
